@@ -30,6 +30,10 @@ func fileItemScanner(data []byte, _ bool) (advance int, token []byte, err error)
 	}
 
 	advance = fileItemMinLen + int(data[2])
+	if len(data) < advance {
+		// the item's name is not in the scanner's buffer yet: ask for more data
+		return 0, nil, nil
+	}
 	return advance, data[0:advance], nil
 }
 
